@@ -290,6 +290,43 @@ func PoolL() *Pool {
 	return p
 }
 
+// PoolS: structured values (lists, pairs, maps, structs) that are built by rules and meet equal values that
+// were constructed separately (stored base facts, literals in the rule text) in every unification position:
+// join variables, negated atoms, equalities and inequalities, repeated variables, constructor patterns.
+func PoolS() *Pool {
+	p := &Pool{Name: "S", Decls: "Decl sv(A).\nDecl sw(A,B).\nDecl n(A).\n"}
+	add := func(s string) { p.Rules = append(p.Rules, s); p.Tags = append(p.Tags, "") }
+	add("c(P) :- n(X), n(Y), P = [X, Y].")
+	add("c(P) :- n(X), n(Y), P = fn:pair(X, Y).")
+	add("c(P) :- n(X), P = fn:list:cons(X, [2]).")
+	add("c(P) :- n(X), P = {/a: X}.")
+	add("j(P) :- c(P), sv(P).")
+	add("j(P) :- sv(P), c(P).")
+	add("k(P) :- sv(P), !c(P).")
+	add("k(P) :- c(P), !sv(P).")
+	add("d(P,Q) :- sw(P,Q), P = Q.")
+	add("d(P,Q) :- sw(P,Q), P != Q.")
+	add("r(P) :- sw(P,P).")
+	add("l(X) :- n(X), sv([X, 2]).")
+	add("l(X) :- n(X), sw([1, X], _).")
+	add("m(P) :- sv(P), P = [1, 2].")
+	add("m(P) :- sv(P), P = {/a: 1}.")
+	add("m(P) :- sv(P), :match_pair(P, 1, 2).")
+	add("t(P) :- c(P), P = Q, sv(Q).")
+	add("g(L) :- n(X), L = [X].")
+	add("g(L) :- g(T), N = fn:list:len(T), N < 2, n(X), L = fn:list:cons(X, T).")
+	add("h(L) :- g(L), sv(L).")
+	add("h(L) :- sv(L), !g(L).")
+	p.EDBs = [][]string{
+		{"sv([1, 2])", "sv(fn:pair(1, 2))", "sv([1])", "sw([1, 2], [1, 2])", "sw(fn:pair(1, 2), [1, 2])", "n(1)", "n(2)"},
+		{"sv({/a: 1})", "sv([1: 2])", "sv({/a: 2})", "sw({/a: 1}, {/a: 1})", "sw([1: 2], [2: 1])", "n(1)"},
+		{"sv([])", "sv([[1]])", "sv([2, 2])", "sv([2, 1])", "sw([[1]], [[1]])", "sw([1, 2], [2, 1])", "n(2)", "n(1)"},
+		{"n(1)", "n(2)"},
+		{"sv([1, 2])", "sv(fn:pair(2, 2))", "sw([2, 2], [2, 2])", "n(2)"},
+	}
+	return p
+}
+
 // IsFact reports whether a pool clause is a fact (no body).
 func IsFact(clause string) bool { return !strings.Contains(clause, ":-") }
 
